@@ -17,7 +17,7 @@ pub fn rel_exp(r: &Value) -> RelExp {
     RelExp {
         name: NAMES[r["n"].as_u64().unwrap_or(0) as usize].to_string(),
         aq: if r["q"].as_u64() == Some(1) { Some("any".into()) } else { None },
-        version: match v { 1 => Some((">=".into(), "1.0".into())), 2 => Some(("<<".into(), "1:2.0~rc1".into())), _ => None },
+        version: match v { 1 => Some((">=".into(), "1.0".into())), 2 => Some(("<<".into(), "1:2.0~rc1".into())), 3 => Some((">=".into(), "1.0-0".into())), _ => None },
         archs: match a { 1 => Some(vec!["amd64".into()]), 2 => Some(vec!["!i386".into(), "linux-any".into()]), _ => None },
         profs: (1..=p).map(|g| if g == 1 { vec![(true, "nocheck".to_string())] } else if g == 2 { vec![(false, "stage1".to_string()), (true, "cross".to_string())] } else { vec![(true, "a".to_string()), (true, "b".to_string()), (true, "pkg.c.d".to_string())] }).collect(),
     }
@@ -200,7 +200,7 @@ fn model_after(f: &Vec<Vec<RelExp>>, op: &Value) -> Vec<Vec<RelExp>> {
         "entry_push" => f[i].push(xs[0].clone()),
         "entry_replace" => f[i][j] = xs[0].clone(),
         "remove_relation" | "relation_remove" => remove_rel(&mut f),
-        "set_version" => f[i][j].version = match arg { 1 => Some((">=".into(), "1.0".into())), 2 => Some(("<<".into(), "1:2.0~rc1".into())), _ => None },
+        "set_version" => f[i][j].version = match arg { 1 => Some((">=".into(), "1.0".into())), 2 => Some(("<<".into(), "1:2.0~rc1".into())), 3 => Some((">=".into(), "1.0-0".into())), _ => None },
         "drop_constraint" => f[i][j].version = None,
         "set_archqual" => f[i][j].aq = Some("any".into()),
         "set_architectures" => f[i][j].archs = Some(if arg == 1 { vec!["amd64".into()] } else { vec!["!i386".into(), "linux-any".into()] }),
